@@ -478,7 +478,12 @@ where
 
     #[inline]
     fn argument(self) -> Self::RealField {
-        Self::zero()
+        // as for real floats: 0 on the non-negative half axis, pi on the negative one
+        if self.re >= T::zero() {
+            Self::zero()
+        } else {
+            Self::from_re(<T as FloatConst>::PI())
+        }
     }
 
     #[inline]
